@@ -1,8 +1,9 @@
 import Emerge.Inst.Tables
 import Emerge.Proofs.LRDriver
+import Emerge.LREval
 /-
-  C18 — parse callbacks fire in derivation order; errors abort.
-  (The value-passing part of the property, `ParseAndEvaluate`, is in `Emerge.Props.C18Values`.)
+  C18 — parse callbacks fire in derivation order; errors abort; an evaluation callback receives the
+  values of the body symbols left to right and its result becomes the value of the head.
 -/
 namespace Emerge.Props.C18
 open Emerge Emerge.LR Emerge.Inst.Tables
@@ -79,5 +80,84 @@ theorem C18_no_abort (w : List Nat) (k fuel : Nat) (errAt : Option Nat)
 
 /-- Non-vacuity: `grammar x ; x = "s" ;` (token kinds 13 17 1 17 0 19 1) is accepted. -/
 example : (parse raw.tables [13, 17, 1, 17, 0, 19, 1] none none 200).2 = .accept := by decide +kernel
+
+/-! ### values: `ParseAndEvaluate` is the fold of the evaluation function over the parse tree -/
+
+mutual
+/-- the value of a parse tree under an evaluation function: a leaf is its token's lexeme at the
+    token's position; an interior node is the function applied to the values of its children, left
+    to right, positioned at the first child (no position for an empty body) -/
+def foldNode {V : Type} (f : Nat → List (Value V) → V) (tokVal : Nat → V) : LR.Node → Value V
+  | .leaf i => ⟨tokVal i, some i⟩
+  | .inner p cs => ⟨f p (foldList f tokVal cs), ((foldList f tokVal cs).head?).bind (·.pos)⟩
+def foldList {V : Type} (f : Nat → List (Value V) → V) (tokVal : Nat → V) : List LR.Node → List (Value V)
+  | [] => []
+  | c :: cs => foldNode f tokVal c :: foldList f tokVal cs
+end
+
+theorem foldList_eq_map {V : Type} (f : Nat → List (Value V) → V) (tokVal : Nat → V) (cs : List LR.Node) :
+    foldList f tokVal cs = cs.map (foldNode f tokVal) := by
+  induction cs with
+  | nil => rfl
+  | cons c cs ih => simp [foldList, ih]
+
+theorem popValues_map {α β} (g : α → β) : ∀ (n : Nat) (st : List α),
+    popValues n (st.map g) = (popValues n st).map (fun r => (r.1.map g, r.2.map g)) := by
+  intro n
+  induction n with
+  | zero => intro st; simp [popValues]
+  | succ n ih =>
+    intro st
+    cases st with
+    | nil => simp [popValues]
+    | cons x st =>
+      simp only [List.map_cons, popValues, ih]
+      cases popValues n st <;> simp
+
+/-- **Values**: when no evaluation call fails, the value stack `ParseAndEvaluate` maintains is, at
+    every moment, the image of the tree stack `ParseAndBuildAST` maintains under the fold of the
+    evaluation function: every call receives exactly the values of the production's body symbols,
+    left to right, its result becomes the value of the head, and the head takes the position of its
+    first body symbol. -/
+theorem C18_values {V : Type} (prods : List Prod) (f : Nat → List (Value V) → V) (tokVal : Nat → V) :
+    ∀ (evs : List Event) (st st' : List LR.Node) (calls : Nat),
+      astEvents prods evs st = some st' →
+      evalEvents prods (fun _ p rhs => some (f p rhs)) tokVal evs (st.map (foldNode f tokVal)) calls
+        = .ok (st'.map (foldNode f tokVal)) := by
+  intro evs
+  induction evs with
+  | nil => intro st st' calls h; simp [astEvents] at h; subst h; rfl
+  | cons e es ih =>
+    intro st st' calls h
+    cases e with
+    | tok i =>
+      simp only [astEvents] at h
+      simp only [evalEvents]
+      exact ih (.leaf i :: st) st' calls h
+    | prod p =>
+      simp only [astEvents] at h
+      simp only [evalEvents]
+      cases hp : prods[p]? with
+      | none => simp [hp] at h
+      | some pr =>
+        obtain ⟨A, β⟩ := pr
+        simp only [hp] at h ⊢
+        rw [popValues_map]
+        cases hv : popValues β.length st with
+        | none => simp [hv] at h
+        | some r =>
+          obtain ⟨cs, st0⟩ := r
+          simp only [hv] at h
+          simp only [Option.map_some]
+          have := ih (.inner p cs :: st0) st' (calls + 1) h
+          simpa [foldNode, foldList_eq_map] using this
+
+/-- **An evaluation error stops the parse at that point**: if the `k`-th call of the evaluation
+    function fails, the result is that error and no later call is made (the fold stops). -/
+theorem C18_eval_error {V : Type} (prods : List Prod) (eval : Nat → Nat → List (Value V) → Option V) (tokVal : Nat → V)
+    (p : Nat) (A : Nat) (β : List Sym) (es : List Event) (st : List (Value V)) (rhs st' : List (Value V)) (calls : Nat)
+    (hp : prods[p]? = some (A, β)) (hv : popValues β.length st = some (rhs, st')) (hfail : eval calls p rhs = none) :
+    evalEvents prods eval tokVal (.prod p :: es) st calls = .error (.evalError calls) := by
+  simp [evalEvents, hp, hv, hfail]
 
 end Emerge.Props.C18
